@@ -122,7 +122,16 @@ def run(ctx):
     if len(vec_cmp) == 1:
         b = vec_cmp[0]
         lc = [t for _, t in b.calls() if t["call"]["name"] == "cmp" and tystr(strip_refs(t["call"]["substs"][0])) == "usize"]
-        ctx.check(len(lc) == 1, "R14.3", b.loc(), "Vec::cmp|length-fallback", "Vec::cmp must fall back to the order of the lengths when one list is a prefix of the other", instance="Vec::cmp: falls back to len().cmp()")
+        ok = len(lc) == 1
+        why = ""
+        if ok:
+            trc = Tracer(b, through_calls=True, through_agg=True)
+            ra, rb = trc.root_locals(lc[0]["args"][0]), trc.root_locals(lc[0]["args"][1])
+            # each operand is the length of one whole parameter: it must not pass through the common-prefix slices / min()
+            ok = {ra and frozenset(ra), rb and frozenset(rb)} == {frozenset({1}), frozenset({2})}
+            if not ok:
+                why = f" — the compared lengths derive from parameters {sorted(ra)} and {sorted(rb)}; they must be the lengths of `self` alone and `other` alone (not of the truncated prefixes, which are always equal)"
+        ctx.check(ok, "R14.3", b.loc(), "Vec::cmp|length-fallback", "Vec::cmp must fall back to the order of the two lists' lengths when one list is a prefix of the other" + why, instance="Vec::cmp: falls back to self.len().cmp(other.len()) (operands rooted in self / other only)")
     # ---------------- R14.4 Option tables
     I = minterp.Interp(F, c, inline=lambda d, i: False)
     oe = [b for b in c.bodies if b.trait == DOPS and ty_adt(b.self_ty) == "core::option::Option" and b.name == "eq"]
